@@ -13,20 +13,27 @@ Fixpoint deliver (msgs : list (Z * epoch)) (logs : list hlog) : list hlog :=
   end.
 Definition logs_obs (logs : list hlog) : list Z := flat_map (fun l => match l with (c, a, b) => [c; a; b] end) logs.
 
-Fixpoint run_mgr (d : Z) (s : mstate) (logs : list hlog) (h : list mevent) : list Z :=
+(* the three Epoch { id } queries made after every event: the initial id, current id - 1, current id + 1 (u64 wrap-around
+   of the harness's own id arithmetic included) *)
+Definition wrap64 (z : Z) : Z := z mod P64.
+Definition qobs (d : Z) (s : mstate) (id0 : Z) : list Z :=
+  flat_map (fun q => obs_of (fun e => [e_id e; e_start e]) (mquery d s q))
+           [id0; wrap64 (e_id (m_epoch s) - 1); wrap64 (e_id (m_epoch s) + 1)].
+
+Fixpoint run_mgr (d id0 : Z) (s : mstate) (logs : list hlog) (h : list mevent) : list Z :=
   match h with
   | [] => []
   | (now, o) :: r =>
       match mstep d now s o with
       | Ok (s', msgs) => let logs' := deliver msgs logs in
-                         [0; e_id (m_epoch s'); e_start (m_epoch s')] ++ logs_obs logs' ++ run_mgr d s' logs' r
-      | Err c => [1; c; e_id (m_epoch s); e_start (m_epoch s)] ++ logs_obs logs ++ run_mgr d s logs r
-      | Panic => [2; e_id (m_epoch s); e_start (m_epoch s)] ++ logs_obs logs ++ run_mgr d s logs r
+                         [0; e_id (m_epoch s'); e_start (m_epoch s')] ++ logs_obs logs' ++ qobs d s' id0 ++ run_mgr d id0 s' logs' r
+      | Err c => [1; c; e_id (m_epoch s); e_start (m_epoch s)] ++ logs_obs logs ++ qobs d s id0 ++ run_mgr d id0 s logs r
+      | Panic => [2; e_id (m_epoch s); e_start (m_epoch s)] ++ logs_obs logs ++ qobs d s id0 ++ run_mgr d id0 s logs r
       end
   end.
 (* input: ((duration, start id, start time), schedule) *)
 Definition run_c20_mgr (i : (Z * Z * Z) * list mevent) : list Z :=
-  match i with ((d, id0, st0), h) => run_mgr d (mkM (mkEpoch id0 st0) []) [(0, 0, 0); (0, 0, 0); (0, 0, 0)] h end.
+  match i with ((d, id0, st0), h) => run_mgr d id0 (mkM (mkEpoch id0 st0) []) [(0, 0, 0); (0, 0, 0); (0, 0, 0)] h end.
 
 Fixpoint run_dist (d g : Z) (cur : epoch) (h : list devent) : list Z :=
   match h with
